@@ -321,6 +321,12 @@ def gen_case(rng, model=None, regime=None, kmax=8, pmax=8, cfg=None, int_only=Fa
         case["vals_tags"] = tags
     if rng.random() < 0.08:
         case["ids"] = "shared"
+    if rng.random() < 0.06:
+        from .util import FLAVOURS
+
+        # application-side types: list subclasses as containers, a trivial subclass of the model class, ratings that carry
+        # extra attributes (util.build applies it)
+        case["flavour"] = rng.choice(FLAVOURS)
     meta = dict(regime=regime, levels=lv, enc=style, ties=tie_shape(lv), k=len(teams))
     return case, meta
 
